@@ -64,14 +64,20 @@ pub fn convert_node(ast: &ASTTy, imp: &mut Imports, state: &State, ctx: &Context
             statements: convert_vec(statements, imp, state, ctx)?,
         },
 
-        NodeTy::Int { lit } => Core::Int { int: lit.clone() },
+        NodeTy::Int { lit } => Core::Int {
+            int: without_leading_zeros(lit),
+        },
         NodeTy::Real { lit } => Core::Float { float: lit.clone() },
         NodeTy::ENum { num, exp } => Core::ENum {
-            num: num.clone(),
+            num: if num.contains('.') {
+                num.clone()
+            } else {
+                without_leading_zeros(num)
+            },
             exp: if exp.is_empty() {
                 String::from("0")
             } else {
-                exp.clone()
+                without_leading_zeros(exp)
             },
         },
         NodeTy::DocStr { lit } => Core::DocStr {
@@ -321,6 +327,16 @@ pub fn convert_node(ast: &ASTTy, imp: &mut Imports, state: &State, ctx: &Context
     };
 
     Ok(core)
+}
+
+/// Python rejects a decimal integer with leading zeros (`007`); the sign of an exponent is kept.
+fn without_leading_zeros(digits: &str) -> String {
+    let (sign, digits) = match digits.strip_prefix('-') {
+        Some(digits) => ("-", digits),
+        None => ("", digits),
+    };
+    let digits = digits.trim_start_matches('0');
+    format!("{sign}{}", if digits.is_empty() { "0" } else { digits })
 }
 
 fn append_assign(core: &Core, assign_to: &Core, name: &Option<Name>, imp: &mut Imports) -> Core {
